@@ -199,6 +199,68 @@ pub fn main(args: &[String]) {
     let mut rep = Report::default();
     let mut ev = vec![];
     match args.first().map(|s| s.as_str()) {
+        Some("corpus") => {
+            // V on the repository's variable fonts: item variation stores of HVAR / VVAR / MVAR / GDEF / COLR / BASE read
+            // raw, and the rows read-fonts decodes from them
+            use read_fonts::TableProvider;
+            for dir in ["/repo/font-test-data/test_data/ttf", "/repo/klippa/test-data/fonts"] {
+                let Ok(rd) = std::fs::read_dir(dir) else { continue };
+                let mut files: Vec<_> = rd.filter_map(|e| e.ok()).map(|e| e.path()).filter(|p| p.extension().map(|e| e == "ttf" || e == "otf").unwrap_or(false)).collect();
+                files.sort();
+                for path in files {
+                    let Ok(bytes) = std::fs::read(&path) else { continue };
+                    let Ok(f) = read_fonts::FontRef::new(&bytes) else { continue };
+                    let name = path.file_name().unwrap().to_string_lossy().to_string();
+                    let mut stores: Vec<(&str, RStore)> = vec![];
+                    if let Ok(t) = f.hvar() {
+                        if let Ok(s) = t.item_variation_store() {
+                            stores.push(("HVAR", s));
+                        }
+                    }
+                    if let Ok(t) = f.vvar() {
+                        if let Ok(s) = t.item_variation_store() {
+                            stores.push(("VVAR", s));
+                        }
+                    }
+                    if let Ok(t) = f.mvar() {
+                        if let Some(Ok(s)) = t.item_variation_store() {
+                            stores.push(("MVAR", s));
+                        }
+                    }
+                    if let Ok(t) = f.gdef() {
+                        if let Some(Ok(s)) = t.item_var_store() {
+                            stores.push(("GDEF", s));
+                        }
+                    }
+                    if let Ok(t) = f.colr() {
+                        if let Some(Ok(s)) = t.item_variation_store() {
+                            stores.push(("COLR", s));
+                        }
+                    }
+                    for (tag, store) in stores {
+                        for (outer, d) in store.item_variation_data().iter().enumerate() {
+                            let Some(Ok(d)) = d else { continue };
+                            let nreg = d.region_indexes().len();
+                            let wc = d.word_delta_count();
+                            let long = wc & 0x8000 != 0;
+                            let w = (wc & 0x7FFF) as usize;
+                            if w > nreg {
+                                continue;
+                            }
+                            let row = if long { 4 * w + 2 * (nreg - w) } else { 2 * w + (nreg - w) };
+                            let keep = if row == 0 { d.item_count() as usize } else { (d.item_count() as usize).min(2400 / row).min(60) };
+                            let Some(raw) = d.delta_sets().get(..keep * row) else { continue };
+                            rep.evaluations += 1;
+                            let rows: Vec<Value> = (0..keep).map(|i| json!(d.delta_set(i as u16).collect::<Vec<i32>>())).collect();
+                            ev.push(json!({"op": "ivs_read", "font": name, "table": tag, "outer": outer,
+                                "data": {"item_count": keep, "word_count": wc, "region_indexes": d.region_indexes().iter().map(|x| x.get()).collect::<Vec<_>>(), "bytes": raw},
+                                "rows": rows}));
+                            rep.distinct += 1;
+                        }
+                    }
+                }
+            }
+        }
         Some("hist") => {
             let path = arg_after(args, "--hist").expect("--hist");
             let every: u64 = arg_after(args, "--every").map(|s| s.parse().unwrap()).unwrap_or(1);
